@@ -165,6 +165,19 @@ func expectOf(ok bool) string {
 	return ExpIgnore
 }
 
+// selected: is_aggregator / is_sync_committee_aggregator — sha256(selection proof)[0:8] LE mod modulo == 0.
+func selected(proof refspec.Signature, modulo uint64) bool {
+	if modulo == 0 {
+		modulo = 1
+	}
+	h := sha256.Sum256(proof[:])
+	var x uint64
+	for i := 7; i >= 0; i-- {
+		x = x<<8 | uint64(h[i])
+	}
+	return x%modulo == 0
+}
+
 func flipR(r common.Root) common.Root { r[9] ^= 0x10; return r }
 
 // ---------------------------------------------------------------- beacon_block
@@ -424,14 +437,18 @@ func (s *Std) AggregateCases() []P2PCase {
 		outerDom   [4]byte
 		outerKey   int64
 	}
+	type sl struct{ S uint64 }
+	selProof := func(signer, selSlot uint64) refspec.Signature {
+		selDom := a.pre.Domain(c, refspec.DomainSelectionProof, c.EpochAtSlot(selSlot))
+		return w.Sign(w.valKeys(a.pre, []uint64{signer}), refspec.SigningRoot(refssz.Root(&sl{selSlot}, nil), selDom))
+	}
+	modulo := uint64(len(a.comm)) / 16
 	build := func(g agg) *phase0.SignedAggregateAndProof {
 		selSigner := g.aggregator
 		if g.selSigner >= 0 {
 			selSigner = uint64(g.selSigner)
 		}
-		type sl struct{ S uint64 }
-		selDom := a.pre.Domain(c, refspec.DomainSelectionProof, c.EpochAtSlot(g.selSlot))
-		sel := w.Sign(w.valKeys(a.pre, []uint64{selSigner}), refspec.SigningRoot(refssz.Root(&sl{g.selSlot}, nil), selDom))
+		sel := selProof(selSigner, g.selSlot)
 		msg := refspec.AggregateAndProof{AggregatorIndex: g.aggregator, Aggregate: g.att, SelectionProof: sel}
 		outerSigner := g.aggregator
 		if g.outerKey >= 0 {
@@ -449,7 +466,18 @@ func (s *Std) AggregateCases() []P2PCase {
 		fullBits[i] = true
 	}
 	fullAtt := refspec.Attestation{AggregationBits: fullBits, Data: a.data, Signature: w.signAtt(a.pre, &a.data, a.comm)}
-	base := agg{aggregator: a.comm[0], att: fullAtt, selSigner: -1, selSlot: slot, outerDom: refspec.DomainAggregateAndProof, outerKey: -1}
+	// the honest aggregator: the first committee member its selection proof selects
+	first := -1
+	for i, m := range a.comm {
+		if selected(selProof(m, slot), modulo) {
+			first = i
+			break
+		}
+	}
+	if first < 0 {
+		panic("harness: no member of the committee is selected as aggregator")
+	}
+	base := agg{aggregator: a.comm[first], att: fullAtt, selSigner: -1, selSlot: slot, outerDom: refspec.DomainAggregateAndProof, outerKey: -1}
 	run := func(g agg) func(v *View) gossipval.GossipValidatorResult {
 		return func(v *View) gossipval.GossipValidatorResult {
 			_, res := gossipval.ValidateAggregateAndProof(context.Background(), build(g), v)
@@ -461,10 +489,15 @@ func (s *Std) AggregateCases() []P2PCase {
 		out = append(out, P2PCase{Topic: "beacon_aggregate_and_proof", Name: name, Expect: exp, Run: r, NowSlot: nowS, OffsetMs: off, Premark: pre, Honest: honest})
 	}
 	add("honest", ExpAccept, now, 0, nil, honest)
-	{
+	for i, m := range a.comm {
+		// every member as aggregator with a valid selection proof and valid signatures: accepted iff selected
 		g := base
-		g.aggregator = a.comm[len(a.comm)-1]
-		add("honest, other aggregator of the committee", ExpAccept, now, 0, nil, run(g))
+		g.aggregator = m
+		exp := ExpAccept
+		if !selected(selProof(m, slot), modulo) {
+			exp = ExpNotAccept
+		}
+		add(fmt.Sprintf("member %d of the committee as aggregator (modulo %d): selection decides", i, modulo), exp, now, 0, nil, run(g))
 	}
 	add("from the future", ExpIgnore, slot-1, 0, nil, honest)
 	clockGrid(c, sub(slot, 2), slot+34, func(n uint64, off int64) {
@@ -473,7 +506,7 @@ func (s *Std) AggregateCases() []P2PCase {
 		}
 		add(fmt.Sprintf("clock sweep: honest aggregate at clock slot %d + %dms", n, off), expectOf(attWindow(c, slot, n, off)), n, off, nil, honest)
 	})
-	add("aggregator already seen for this epoch", ExpIgnore, now, 0, []string{fmt.Sprintf("aggregator/%d/%d", a.data.Target.Epoch, a.comm[0])}, honest)
+	add("aggregator already seen for this epoch", ExpIgnore, now, 0, []string{fmt.Sprintf("aggregator/%d/%d", a.data.Target.Epoch, base.aggregator)}, honest)
 	{
 		r := common.Root(refssz.Root(&fullAtt, c.Params()))
 		add("identical aggregate already seen", ExpIgnore, now, 0, []string{fmt.Sprintf("agg/%x", r)}, honest)
@@ -504,9 +537,13 @@ func (s *Std) AggregateCases() []P2PCase {
 	}
 	{
 		g := base
-		g.selSigner = int64(a.comm[len(a.comm)-1])
-		if uint64(g.selSigner) != g.aggregator {
-			add("selection proof signed by another validator", ExpNotAccept, now, 0, nil, run(g))
+		// a selection proof by another member that itself selects (so that only the signer is wrong)
+		for _, m := range a.comm {
+			if m != g.aggregator && selected(selProof(m, slot), modulo) {
+				g.selSigner = int64(m)
+				add("selection proof signed by another validator", ExpNotAccept, now, 0, nil, run(g))
+				break
+			}
 		}
 	}
 	{
@@ -516,7 +553,7 @@ func (s *Std) AggregateCases() []P2PCase {
 	}
 	{
 		g := base
-		g.outerKey = int64(a.comm[0] + 1)
+		g.outerKey = int64(base.aggregator + 1)
 		add("aggregator signature by another validator", ExpNotAccept, now, 0, nil, run(g))
 	}
 	{
@@ -782,16 +819,29 @@ func (s *Std) SyncCases() []P2PCase {
 	for i := range full {
 		full[i] = true
 	}
-	baseC := contrib{slot: now, sub: 0, bits: full, aggregator: subIdx[0], selSigner: subIdx[0], outKey: subIdx[0], aggSigners: subIdx, outDom: refspec.DomainContributionAndProof}
+	syncSelProof := func(signer, slot, sub uint64) refspec.Signature {
+		sel := refspec.SyncAggregatorSelectionData{Slot: slot, SubcommitteeIndex: sub}
+		selDom := pre.Domain(c, refspec.DomainSyncCommitteeSelectionProof, c.EpochAtSlot(slot))
+		return w.Sign(w.valKeys(pre, []uint64{signer}), refspec.SigningRoot(refssz.Root(&sel, nil), selDom))
+	}
+	syncModulo := c.SyncCommitteeSize / 4 / 16
+	firstSel := uint64(0)
+	for found, i := false, 0; !found; i++ {
+		if i == len(subIdx) {
+			panic("harness: no member of the sync subcommittee is selected as aggregator")
+		}
+		if selected(syncSelProof(subIdx[i], now, 0), syncModulo) {
+			firstSel, found = subIdx[i], true
+		}
+	}
+	baseC := contrib{slot: now, sub: 0, bits: full, aggregator: firstSel, selSigner: firstSel, outKey: firstSel, aggSigners: subIdx, outDom: refspec.DomainContributionAndProof}
 	mkC := func(g contrib) *altair.SignedContributionAndProof {
 		dom := pre.Domain(c, refspec.DomainSyncCommittee, c.EpochAtSlot(g.slot))
 		con := refspec.SyncCommitteeContribution{Slot: g.slot, BeaconBlockRoot: headRoot, SubcommitteeIndex: g.sub, AggregationBits: g.bits, Signature: refspec.InfinitySignature}
 		if len(g.aggSigners) > 0 {
 			con.Signature = w.Sign(w.valKeys(pre, g.aggSigners), refspec.SigningRoot(headRoot, dom))
 		}
-		sel := refspec.SyncAggregatorSelectionData{Slot: g.slot, SubcommitteeIndex: g.sub}
-		selDom := pre.Domain(c, refspec.DomainSyncCommitteeSelectionProof, c.EpochAtSlot(g.slot))
-		cp := refspec.ContributionAndProof{AggregatorIndex: g.aggregator, Contribution: con, SelectionProof: w.Sign(w.valKeys(pre, []uint64{g.selSigner}), refspec.SigningRoot(refssz.Root(&sel, nil), selDom))}
+		cp := refspec.ContributionAndProof{AggregatorIndex: g.aggregator, Contribution: con, SelectionProof: syncSelProof(g.selSigner, g.slot, g.sub)}
 		oDom := pre.Domain(c, g.outDom, c.EpochAtSlot(g.slot))
 		sc := refspec.SignedContributionAndProof{Message: cp, Signature: w.Sign(w.valKeys(pre, []uint64{g.outKey}), refspec.SigningRoot(refssz.Root(&cp, sszParams(w)), oDom))}
 		var out altair.SignedContributionAndProof
@@ -809,12 +859,26 @@ func (s *Std) SyncCases() []P2PCase {
 		out = append(out, P2PCase{Topic: "sync_committee_contribution_and_proof", Name: name, Expect: exp, Run: r, NowSlot: nowS, OffsetMs: off, Premark: pre, Honest: hc})
 	}
 	addC("honest", ExpAccept, now, 0, nil, hc)
+	seenMember := map[uint64]bool{}
+	for i, m := range subIdx {
+		if seenMember[m] {
+			continue
+		}
+		seenMember[m] = true
+		g := baseC
+		g.aggregator, g.selSigner, g.outKey = m, m, m
+		exp := ExpAccept
+		if !selected(syncSelProof(m, now, 0), syncModulo) {
+			exp = ExpNotAccept
+		}
+		addC(fmt.Sprintf("member %d of the subcommittee as aggregator (modulo %d): selection decides", i, syncModulo), exp, now, 0, nil, runC(g))
+	}
 	addC("contribution for the previous slot, clock well inside the current slot", ExpIgnore, now+1, 2000, nil, hc)
 	addC("contribution for a future slot", ExpIgnore, now-1, 0, nil, hc)
 	clockGrid(c, sub(now, 2), now+2, func(n uint64, off int64) {
 		addC(fmt.Sprintf("clock sweep: honest contribution at clock slot %d + %dms", n, off), expectOf(currentSlotOnly(c, now, n, off)), n, off, nil, hc)
 	})
-	addC("already seen for (aggregator, slot, subcommittee)", ExpIgnore, now, 0, []string{fmt.Sprintf("contrib/%d/%d/%d", subIdx[0], now, 0)}, hc)
+	addC("already seen for (aggregator, slot, subcommittee)", ExpIgnore, now, 0, []string{fmt.Sprintf("contrib/%d/%d/%d", firstSel, now, 0)}, hc)
 	{
 		g := baseC
 		g.sub = 4
@@ -842,14 +906,17 @@ func (s *Std) SyncCases() []P2PCase {
 	}
 	{
 		g := baseC
-		g.selSigner = subIdx[len(subIdx)-1]
-		if g.selSigner != g.aggregator {
-			addC("selection proof signed by another validator", ExpNotAccept, now, 0, nil, runC(g))
+		for _, m := range subIdx {
+			if m != g.aggregator && selected(syncSelProof(m, now, 0), syncModulo) {
+				g.selSigner = m
+				addC("selection proof signed by another validator", ExpNotAccept, now, 0, nil, runC(g))
+				break
+			}
 		}
 	}
 	{
 		g := baseC
-		g.outKey = (subIdx[0] + 1) % uint64(len(pre.Validators))
+		g.outKey = (firstSel + 1) % uint64(len(pre.Validators))
 		addC("aggregator signature by another validator", ExpNotAccept, now, 0, nil, runC(g))
 	}
 	{
